@@ -79,16 +79,28 @@ NOTES = {
     "C10_6": ("MISSED at first run (the prover's proof bytes were empty in one case out of 48 only)",
               "harness/c10: two FEP cases whose aggchain proof has empty proof bytes (separate random stream)"),
     "C15_6": ("MISSED by C15 and C11 at first run; the change is in the L1 info tree syncer (a leaf removed by a reorg is still served)",
-              "harness/l1info (C04 part): directed history whose reorg starts exactly at the newest leaf's block, the new fork carrying no leaf "
-              "up to the queried blocks => reported by C04 with a concrete failing input. C15's own harness runs the real syncer store "
-              "under the oracle on LINEAR L1 histories only: not reported by C15 (the oracle is right whenever the syncer's answers are, which "
-              "is what C04 checks after reorgs)"),
+              "(1) harness/l1info (C04 part): directed history whose reorg starts exactly at the newest leaf's block, the new fork carrying no leaf "
+              "up to the queried blocks => reported by C04. (2) C15 extended to L1 reorgs: Model/C15Reorg.v (runs over a history that changes "
+              "between ticks), Proofs/OracleReorgProofs.v (run safety theorems for every such run), harness/c15 stream 'reorg' (the real "
+              "processor's Reorg under the real oracle tick) => reported by C15 itself with a concrete failing schedule"),
     "C10_5": ("only no-failing-input-found by C10 at first run (caught concretely by C19): for certificates with anything non-canonical the wire was not compared",
               "spec_wire (Model/C10Cases.v): also for non-canonical certificates the global index WORD of every imported exit on the wire must be "
               "the number both commitments cover (GenerateGlobalIndex: a set mainnet flag clears the rollup index)"),
     "C15_5": ("only no-failing-input-found at first run (a scripted L1 error failed every request of the tick, which hides a fallback to another request)",
               "harness/c15: a tick can fail only the FIRST request to the L1 client (every second failing tick of the random stream, two boundary "
               "cases with unfinalized roots above the finalized block and the syncer ahead)"),
+    "C17_5": ("MISSED by C17 at first run (C02 reported a broken correspondence, no failing input): the cut was only driven through limitCertSize itself",
+              "harness/c17 kind 'flow': every limit case whose certificate the flow can build (first block >= 1, a first certificate is no retry) is "
+              "also run through the real NewBaseFlow(...).GetCertificateBuildParamsInternal with stub storage / L2 syncer, and compared with the same "
+              "model cut of the fully built certificate"),
+    "C08_5": ("MISSED at first run: cases ran one after the other, the change is a keccak state shared by all trees of the process (data race)",
+              "props/c08: the bridge harness runs 4 cases concurrently in one process (-par 4, as C01 already did; every case is deterministic on "
+              "its own, so the unchanged tree cannot alarm) next to two neighbour trees that keep appending leaves in databases of their own; a "
+              "replayed case runs next to 3 copies of itself. Detection is probabilistic by nature: without the neighbour trees 4 of 5 runs of "
+              "tools/seedtest.sh reported it (1-2 of 7 cases each), with them 6 of 6 (3-7 of 7 cases each)"),
+    "C08_6": ("MISSED by C08 at first run: no reorganised deposit repeated content lying under a surviving root",
+              "harness/bridge: two directed C08 histories (the same bridge four times in a row / the pair (a, b) twice, the fourth deposit reorganised "
+              "away, all proofs of all surviving roots asked, then the new fork)"),
     "C16_4": ("caught at first run by C16; MISSED by the GER-store part of C04",
               "C04 GER-store part: every query is now also asked right before each reorg"),
 }
